@@ -5,7 +5,7 @@ from . import checklib
 
 
 def registry():
-    from . import checks_codec, checks_prim
+    from . import checks_codec, checks_prim, checks_schema
     reg = {
         "C01": checks_codec.check_C01,
         "C02": checks_codec.check_C02,
@@ -13,8 +13,12 @@ def registry():
         "C05": checks_codec.check_C05,
         "C06": checks_codec.check_C06,
         "C10": checks_codec.check_C10,
+        "C08": checks_schema.check_C08,
+        "C09": checks_schema.check_C09,
         "C11": checks_prim.check_C11,
         "C12": checks_prim.check_C12,
+        "C13": checks_schema.check_C13,
+        "C14": checks_schema.check_C14,
     }
     return reg
 
